@@ -27,6 +27,15 @@ class FamResult:
         self.summary = {}
 
 
+def alt_match(impl, model):
+    """The model may print `a/b` where two goroutines legitimately race (documented in the model); either is accepted."""
+    if "/" not in model:
+        return False
+    rx = re.escape(model)
+    rx = re.sub(r"(\d+)((?:/\d+)+)", lambda m: "(?:" + "|".join([m.group(1)] + m.group(2).strip("/").split("/")) + ")", rx)
+    return re.fullmatch(rx, impl) is not None
+
+
 def run_harness(ctx, test_regex, out_dir, env_extra=None, timeout=1500):
     env = dict(os.environ, VERIF_OUT=out_dir, VERIF_SEED=str(ctx.seed), VERIF_TIER=ctx.tier)
     if ctx.replay:
@@ -111,6 +120,9 @@ def ops_family(name, test_regex, files, mode="exact", nontrivial=None, classify=
                 if im == "~":      # intermediate model action inside one implementation step: not observable
                     counts["(intermediate)"] += 1
                     continue
+                if mo == "UNSUPPORTED":   # the scenario left the domain of the step-exact model (revision-zero loop blocked)
+                    counts["(outside-model)"] += 1
+                    continue
                 spec = None
                 if mode == "modelspec" and " | spec " in mo:
                     mo, spec = mo.split(" | spec ", 1)
@@ -133,7 +145,7 @@ def ops_family(name, test_regex, files, mode="exact", nontrivial=None, classify=
                                         "replay_lines": [f"family {name} ({test_regex}), line {i+1} of {fn}.ops",
                                                          "op:    " + op, "impl:  " + im, "model: " + mo,
                                                          "spec:  " + str(spec)] + scenario(i)})
-                elif im != mo:
+                elif im != mo and not alt_match(im, mo):
                     fr.failures.append({"kind": "corr", "key": "corr-" + fn,
                                         "what": f"{name}: model and implementation disagree on `{op[:120]}`",
                                         "replay_lines": [f"correspondence {name} ({test_regex}), line {i+1} of {fn}.ops",
@@ -252,6 +264,145 @@ FLOWEX_DEEP = ops_family("flowex", "^TestFlowExhaustive$", ["flowex"], classify=
                          env={"VERIF_DEPTH": "13", "VERIF_MAXSCHED": "60000"})
 
 
+# ---------------------------------------------------------------- L-frame worlds (S-world, C-world, W1)
+
+import monitors as MON
+
+
+def _proj(prop, line):
+    """The property's view of an observation line (DESIGN 4.3): a change that
+    breaks one property should not light up the others."""
+    o = MON.parse_obs(line)
+    if o is None:
+        return line
+    F = [f"{s}:{f}" for s, f in o["F"]]
+    D = [f"{s}.{op}:{r}" for s, op, r in o["D"]]
+    E = o["E"]
+    T = "-" if o["T"] is None else ",".join(map(str, o["T"]))
+    L = o["L"]
+    kind = lambda f: f.split(":")[1].split("{")[0]
+    if prop == "C01":
+        return f"D={[d for d in D if '.recv:' in d or '.decode:' in d]} F={[f for f in F if kind(f) in ('msg', 'more', 'wu')]}"
+    if prop == "C02":
+        return f"F={[f for f in F if kind(f) in ('hdr', 'close')]} D={[d for d in D if '.sethdr:' in d or '.sendhdr:' in d or '.settlr:' in d or '.header:' in d or '.trailer:' in d]}"
+    if prop == "C06":
+        return f"F={[f for f in F if kind(f) in ('msg', 'more', 'wu', 'close')]}"
+    if prop == "C07":
+        return f"E={[e for e in E if e.startswith('ctxdone')]} T={T} D={D}"
+    if prop == "C08":
+        return f"E={[e for e in E if e.startswith('entered') or e.startswith('serve-returned') or e.startswith('chan-')]} T={T} L={L} D={[d for d in D if '.decode:' in d or '.new:' in d]}"
+    if prop == "C10":
+        return f"F={[f for f in F if kind(f) == 'close']} E={E} T={T}"
+    if prop == "C13":
+        return f"F={F}"
+    if prop == "C14":
+        return f"T={T} L={L} E={[e for e in E if not e.startswith('ctxdone')]}" + o["rest"]
+    if prop == "C16":
+        return f"D={[d for d in D if any(x in d for x in ('.recv:', '.decode:', '.send:'))]} F={[f for f in F if kind(f) == 'close']}"
+    if prop == "C18":
+        return f"E={[e for e in E if e.startswith('ctxdone')]}"
+    return line
+
+
+def world_family(name, test_regex, fn, monitor_cls, prop, scenario_marker, rule, n_quick, n_thorough, env=None):
+    """An L-frame world: lines are compared in the property's view; the
+    implementation lines are fed to the specification monitor and only this
+    property's violations count here."""
+    def fam(ctx):
+        fr = FamResult(name)
+        fr.rule = rule
+        out_dir = os.path.join(ctx.workdir, name)
+        e = dict(env or {})
+        e["VERIF_N"] = str(n_thorough if ctx.thorough else n_quick)
+        if not os.path.exists(os.path.join(out_dir, fn + ".ops")):   # several properties share one run of the world
+            rc, out = run_harness(ctx, test_regex, out_dir, e)
+            if rc != 0:
+                harness_failure(fr, test_regex, rc, out)
+                open(os.path.join(out_dir, "FAILED"), "w").write(out[-3000:])
+        elif os.path.exists(os.path.join(out_dir, "FAILED")):
+            harness_failure(fr, test_regex, 1, open(os.path.join(out_dir, "FAILED")).read())
+        ops_p = os.path.join(out_dir, fn + ".ops")
+        if not os.path.exists(ops_p):
+            fr.failures.append({"kind": "corr", "key": "missing-" + fn, "what": f"harness wrote no {fn}.ops", "replay_lines": []})
+            return fr
+        ops = open(ops_p).read().split("\n")
+        impl = open(os.path.join(out_dir, fn + ".impl")).read().split("\n")
+        model_p = os.path.join(out_dir, fn + ".model")
+        if not os.path.exists(model_p):
+            drc, model = run_driver(ctx, ops_p)
+            open(model_p, "w").write("\n".join(model))
+        else:
+            drc, model = 0, open(model_p).read().split("\n")
+        if drc != 0:
+            fr.failures.append({"kind": "corr", "key": "driver-" + fn, "what": f"model driver exited {drc}", "replay_lines": model[-20:]})
+            return fr
+        mon = monitor_cls()
+        counts = collections.Counter()
+        distinct = set()
+        last_start = 0
+        scen_ok = True
+
+        def scenario(i):
+            lo = max(last_start, i - 300)
+            return ["--- scenario (stimulus => implementation observation) ---"] + \
+                   [f"{ops[j]}  =>  {impl[j] if j < len(impl) else ''}" for j in range(lo, i + 1)]
+        scenarios = 0
+        for i, op in enumerate(ops):
+            if not op:
+                continue
+            if op.startswith(scenario_marker):
+                last_start = i
+                scenarios += 1
+                scen_ok = True
+            im = impl[i] if i < len(impl) else "<missing>"
+            mo = model[i] if i < len(model) else "<missing>"
+            fr.evaluations += 1
+            counts[" ".join(a for a in op.split()[:3] if "=" not in a)] += 1
+            # specification on the implementation's own observations
+            for vprop, key, msg in mon.feed(op, im):
+                if vprop == prop:
+                    fr.failures.append({"kind": "monitor", "key": key,
+                                        "what": f"{name}: {msg}",
+                                        "replay_lines": [f"family {name} ({test_regex}), line {i+1} of {fn}.ops", msg] + scenario(i)})
+            if mo == "UNSUPPORTED":
+                counts["(outside-model)"] += 1
+                continue
+            if not scen_ok:
+                continue      # after the first divergence the rest of a scenario is not comparable
+            pi, pm = _proj(prop, im), _proj(prop, mo)
+            if pi != pm and not alt_match(pi, pm):
+                scen_ok = False
+                fr.failures.append({"kind": "corr", "key": "corr-" + fn,
+                                    "what": f"{name}: model and implementation disagree (view of {prop}) on `{op[:120]}`",
+                                    "replay_lines": [f"correspondence {name} ({test_regex}), line {i+1} of {fn}.ops",
+                                                     "op:    " + op, "impl:  " + im, "model: " + mo,
+                                                     "view(impl):  " + pi, "view(model): " + pm] + scenario(i)})
+            elif pi not in ("", "[]") and ("[" in pi and re.search(r"\[[^\]]", pi)):
+                distinct.add(op.split()[0] + "|" + pi)
+                if len(fr.samples) < 2:
+                    fr.samples.append({"family": name, "op": op[:160], "impl": im[:240]})
+        seen, short = set(), []
+        for f in fr.failures:
+            if f["key"] not in seen:
+                seen.add(f["key"]); short.append(f)
+        fr.summary = {"evaluations": fr.evaluations, "scenarios": scenarios, "stimuli": dict(counts), "failures": len(fr.failures)}
+        fr.failures = short
+        fr.distinct_nontrivial = len(distinct)
+        return fr
+    return fam
+
+
+_SWORLD_RULE = ("S-world: real serveTunnel with scripted handlers (4 call shapes) against a raw client inside a synctest bubble, one "
+                "stimulus per quiescence: mostly-valid conversations (boundary message sizes, chunkings, half-close, cancel, window updates, "
+                "deadlines via grpc-timeout, shutdown flag, carrier EOF/failure) and hostile ones (id reuse/skip/negative, unknown/malformed/"
+                "empty methods, bad revisions, mis-declared sizes, stray continuations, window overruns, absurd window updates, unset frames); "
+                "non-trivial = distinct non-empty observations in the property's view")
+
+
+def SWORLD(prop):
+    return world_family("sworld", "^TestSWorldRandom$", "sworld", MON.SWorldMonitor, prop, "svc ", _SWORLD_RULE, 300, 6000)
+
+
 def tiered(quick, thorough):
     def fam(ctx):
         return (thorough if ctx.thorough else quick)(ctx)
@@ -259,6 +410,49 @@ def tiered(quick, thorough):
 
 
 PROPS = {
+    "C08": {
+        "lean_targets": ["Proofs.Props.C08"],
+        "prop_files": ["Proofs/Props/C08.lean"],
+        "families": [SWORLD("C08"), FINDMETHOD],
+        "side_conditions": ["Proofs.Facts.server_initial_lastSeen"],
+        "trusted_base": ["L-frame server endpoint model TunnelModel/LFrame/Server.lean (one step = one stimulus run to quiescence)",
+                         "Method.lean model of method-name splitting and findMethod"],
+        "assumptions": ["behaviour at quiescence is a function of the stimulus list (checked: every scenario is deterministic under synctest)",
+                        "the carrier delivers frames in order and the codec round-trips frames (frames pass through proto.Marshal/Unmarshal in the harness)"],
+    },
+    "C09": {
+        "lean_targets": ["Proofs.Props.C09"],
+        "prop_files": ["Proofs/Props/C09.lean"],
+        "families": [SWORLD("C09")],
+        "side_conditions": ["Proofs.Facts.window_eq"],
+        "trusted_base": ["L-frame server endpoint model TunnelModel/LFrame/Server.lean",
+                         "panic capture in the harness (recover in the goroutine running serveTunnel)"],
+        "assumptions": ["as C08", "Go panics are not expressible in the model: their absence on peer-controlled paths is checked by the hostile families only"],
+    },
+    "C10": {
+        "lean_targets": ["Proofs.Props.C10"],
+        "prop_files": ["Proofs/Props/C10.lean"],
+        "families": [SWORLD("C10")],
+        "trusted_base": ["L-frame server endpoint model TunnelModel/LFrame/Server.lean (closing flag in createStream)"],
+        "assumptions": ["as C08"],
+    },
+    "C16": {
+        "lean_targets": ["Proofs.Props.C16"],
+        "prop_files": ["Proofs/Props/C16.lean"],
+        "families": [SWORLD("C16")],
+        "trusted_base": ["L-frame server endpoint model TunnelModel/LFrame/Server.lean (readMsg look-ahead, numSent guard)"],
+        "assumptions": ["as C08"],
+    },
+    "C01": {
+        "lean_targets": ["Proofs.Lemmas.Framing"],
+        "prop_files": [],
+        "families": [SWORLD("C01")],
+    },
+    "C03": {
+        "lean_targets": [],
+        "prop_files": [],
+        "families": [SWORLD("C03")],
+    },
     "C05": {
         "lean_targets": ["Proofs.Props.C05"],
         "prop_files": ["Proofs/Props/C05.lean"],
